@@ -198,6 +198,9 @@ func runCase(c Case, x *h.Ctx) {
 	if st.LateProposals > 0 {
 		x.Label("late-proposal-attack-completed")
 	}
+	if st.Starved > 0 {
+		x.Label("amnesia-attack-with-a-round-without-proposal-completed")
+	}
 	if st.Splits > 0 {
 		x.Label("split-attack")
 	}
